@@ -112,8 +112,8 @@ UNPROVED = (
     "(KF-C06-2, KF-C06-3, fullSuffixSwap_fails). Port / label / item / suffix theorems of Props/C06.lean are about Parsed records; "
     "Props/C06Whole.lean states case (every string), port, language label (partial, same side conditions), gl/hl and the shape "
     "clause on STRINGS for the whole-string model fingerprintUrlString with the modelled parser, for every u such that the "
-    "cleaned, resolved form of u.lower() is in the grammar class NormBridge.UrlG.wf (bracket-free host; IPv6 literals and the "
-    "suffix swap stay component-level). That the modelled parser is CPython's is compared on every run, not proved; under platform_aware=True the commutation of T with "
+    "cleaned, resolved form of u.lower() is in the grammar class NormBridge.UrlG.wf (host name or bracketed IP literal); the "
+    "suffix swap stays component-level. That the modelled parser is CPython's is compared on every run, not proved; under platform_aware=True the commutation of T with "
     "the facebook/youtube rewriting is explored by the oracle, not proved (KF-C06-4: it reads the string before unescaping). Escaped capitals: since e39f899 normalize_url(lowercase="
     "True) folds the case right after unescaping; the equation fp('/%41') = fp('/a') is covered by the oracle (C04 family) and by "
     "fp_lower_closed (result closed under lower), not by a general theorem."
